@@ -82,6 +82,19 @@ TakeGate(layers, prog, it, idx) ==
     THEN [layers EXCEPT ![Slide(layers, prog, last, it)] = Append(@, idx)]
     ELSE Append(layers, <<idx>>)
 TakeMz(layers, idx) == Append(layers, <<idx>>)
+\* the packing as a function of the program: take() folded over an order of program indices
+RECURSIVE PackOrd(_, _, _, _)
+PackOrd(layers, prog, ord, j) ==
+    IF j > Len(ord) THEN layers
+    ELSE LET i == ord[j] IN
+         PackOrd(IF prog[i].k = "mz" THEN TakeMz(layers, i) ELSE TakeGate(layers, prog, prog[i], i), prog, ord, j + 1)
+PackProg(prog) == PackOrd(<<<<>>>>, prog, [j \in 1..Len(prog) |-> j], 1)
+\* a.compose(b), a = the first h items, b = the rest: b's gates are taken layer by layer (b's own packing order),
+\* not in the order b received them
+ComposePack(prog, h) ==
+    LET tail == SubSeq(prog, h + 1, Len(prog))
+        tord == Flat(PackProg(tail))
+    IN PackOrd(PackProg(SubSeq(prog, 1, h)), prog, [b \in 1..Len(tord) |-> tord[b] + h], 1)
 \* drop the (possibly empty) first layer when comparing with recorded layouts
 NonEmpty(layers) == SelectSeq(layers, LAMBDA x : Len(x) > 0)
 =============================================================================
